@@ -60,7 +60,9 @@ def tree_validity(t):
     if not t["arch"]:
         return INVALID, "tree.arch:blank"
     ts = t.get("build_timestamp")
-    if isinstance(ts, bool) or not isinstance(ts, (int, float)):
+    if isinstance(ts, bool):
+        return UNSPEC, "tree.build_timestamp:bool"
+    if not isinstance(ts, (int, float)):
         return INVALID, "tree.build_timestamp:type"
     if not ts:
         return INVALID, "tree.build_timestamp:blank"
@@ -189,7 +191,9 @@ def ti_validity(model):
     m = model["media"]
     for f in ("discnum", "totaldiscs"):
         v = m.get(f)
-        if v is not None and (isinstance(v, bool) or not isinstance(v, int)):
+        if isinstance(v, bool):
+            take(UNSPEC, "media.%s:bool" % f)
+        elif v is not None and not isinstance(v, int):
             return INVALID, "media.%s:type" % f
     if bool(m.get("discnum")) != bool(m.get("totaldiscs")):
         take(UNSPEC, "media:half-set")
